@@ -221,7 +221,7 @@ Section Flow.
   Qed.
 
   Lemma status_success : status_ok (Some success_status) = Ok tt.
-  Proof. unfold status_ok, status_ok_with, success_status. cbn [st_code]. unfold is_success. now rewrite str_eqb_refl. Qed.
+  Proof. unfold status_ok, status_ok_with, status_ok_gen, success_status. cbn [st_code]. unfold is_success. now rewrite str_eqb_refl. Qed.
 
   Lemma verify_built req st0 : came_from st0 = expected_cf c a ->
     verify c req st0 r = if negb (w_asig w) && req then Err SignatureError else Ok (Some (final_state i a st0)).
